@@ -257,6 +257,106 @@ func w7scripts() []func() []string {
 			}
 			return v
 		},
+		func() (v []string) { // from-raw / as-raw copy: values filled from ONE raw input, then in-place byte edits
+			mkraw := func() map[string]any {
+				return map[string]any{"b": []byte{1, 2, 3}, "m": map[string]any{"nb": []byte{4, 5}}, "s": []any{[]byte{6, 7}, "x"}}
+			}
+			want := w7raw(mkraw())
+			chk := func(sig string, got any) {
+				if w7raw(got) != want {
+					v = append(v, "sig="+sig+" got="+w7raw(got))
+				}
+			}
+			bytesAt := func(m pcommon.Map, path ...string) pcommon.ByteSlice {
+				val, _ := m.Get(path[0])
+				for _, k := range path[1:] {
+					val, _ = val.Map().Get(k)
+				}
+				return val.Bytes()
+			}
+			// (1) two Maps from the same raw input; in-place edits on one (SetAt, fitting FromRaw, fitting CopyTo)
+			raw := mkraw()
+			m1, m2 := pcommon.NewMap(), pcommon.NewMap()
+			_ = m1.FromRaw(raw)
+			_ = m2.FromRaw(raw)
+			bytesAt(m1, "b").SetAt(0, 99)
+			bytesAt(m1, "m", "nb").FromRaw([]byte{9, 9})
+			sv, _ := m1.Get("s")
+			other := pcommon.NewByteSlice()
+			other.FromRaw([]byte{8, 8})
+			other.CopyTo(sv.Slice().At(0).Bytes())
+			chk("C07/fromraw/editing-one-value-changed-another-filled-from-the-same-raw kind=Map", m2.AsRaw())
+			chk("C07/fromraw/editing-a-value-changed-the-raw-input kind=Map", raw)
+			// (2) the caller keeps the raw input and mutates it afterwards
+			raw = mkraw()
+			v1 := pcommon.NewValueEmpty()
+			_ = v1.FromRaw(raw)
+			s1 := pcommon.NewSlice()
+			_ = s1.FromRaw([]any{raw})
+			direct := []byte{1, 2, 3}
+			v2 := pcommon.NewValueEmpty()
+			_ = v2.FromRaw(direct)
+			raw["b"].([]byte)[1] = 77
+			raw["m"].(map[string]any)["nb"].([]byte)[0] = 77
+			raw["s"].([]any)[0].([]byte)[1] = 77
+			direct[0] = 77
+			chk("C07/fromraw/mutating-the-raw-input-changed-the-value kind=Value", v1.AsRaw())
+			chk("C07/fromraw/mutating-the-raw-input-changed-the-value kind=Slice", s1.At(0).AsRaw())
+			if w7raw(v2.Bytes().AsRaw()) != "[1 2 3]" {
+				v = append(v, "sig=C07/fromraw/mutating-the-raw-input-changed-the-value kind=Value-bytes got="+w7raw(v2.Bytes().AsRaw()))
+			}
+			// (3) a read-only payload filled from raw must not change when another value from the same raw is edited
+			raw = mkraw()
+			ro, rw := NewLogs(), pcommon.NewValueEmpty()
+			_ = ro.ResourceLogs().AppendEmpty().ScopeLogs().AppendEmpty().LogRecords().AppendEmpty().Body().FromRaw(raw)
+			_ = ro.ResourceLogs().At(0).Resource().Attributes().FromRaw(raw)
+			_ = rw.FromRaw(raw)
+			ro.MarkReadOnly()
+			pm := &ProtoMarshaler{}
+			before, _ := pm.MarshalLogs(ro)
+			bytesAt(rw.Map(), "b").SetAt(2, 55)
+			bytesAt(rw.Map(), "m", "nb").SetAt(1, 55)
+			raw["b"].([]byte)[0] = 56
+			if after, _ := pm.MarshalLogs(ro); string(after) != string(before) {
+				v = append(v, "sig=C07/fromraw/read-only-payload-changed-through-shared-raw-bytes")
+			}
+			// (4) as-raw: the returned raw value is a copy both ways (Value, Map, Slice, ByteSlice, primitive slices)
+			src := pcommon.NewValueEmpty()
+			_ = src.FromRaw(mkraw())
+			r := src.AsRaw().(map[string]any)
+			r["b"].([]byte)[0] = 42
+			r["m"].(map[string]any)["nb"].([]byte)[0] = 42
+			r["s"].([]any)[0].([]byte)[0] = 42
+			chk("C07/asraw/mutating-the-returned-raw-changed-the-value kind=Value", src.AsRaw())
+			r2 := src.AsRaw()
+			bytesAt(src.Map(), "b").SetAt(0, 43)
+			chk("C07/asraw/editing-the-value-changed-the-returned-raw kind=Value", r2)
+			bs := pcommon.NewByteSlice()
+			bs.FromRaw([]byte{1, 2, 3})
+			rb := bs.AsRaw()
+			rb[0] = 9
+			bs.SetAt(1, 9)
+			if w7raw(bs.AsRaw()) != "[1 9 3]" || w7raw(rb) != "[9 2 3]" {
+				v = append(v, "sig=C07/asraw/byteslice-raw-aliases got="+w7raw(bs.AsRaw())+w7raw(rb))
+			}
+			us := pcommon.NewUInt64Slice()
+			in := []uint64{1, 2, 3}
+			us.FromRaw(in)
+			in[0] = 9
+			ru := us.AsRaw()
+			ru[1] = 9
+			us.SetAt(2, 9)
+			if w7raw(us.AsRaw()) != "[1 2 9]" || w7raw(ru) != "[1 9 3]" {
+				v = append(v, "sig=C07/asraw/primitive-slice-raw-aliases got="+w7raw(us.AsRaw())+w7raw(ru))
+			}
+			bin := []byte{1, 2, 3}
+			bs.FromRaw(bin) // fits the buffer
+			bin[0] = 7
+			if w7raw(bs.AsRaw()) != "[1 2 3]" {
+				v = append(v, "sig=C07/fromraw/mutating-the-raw-input-changed-the-value kind=ByteSlice got="+w7raw(bs.AsRaw()))
+			}
+			return v
+		},
 		func() (v []string) { // value slice (pmetric.ExemplarSlice): RemoveIf then CopyTo
 			dst, src := pmetric.NewExemplarSlice(), pmetric.NewExemplarSlice()
 			for i := 0; i < 3; i++ {
